@@ -12,7 +12,7 @@ TECHNIQUE = ("bounded-exhaustive enumeration of (control, test) trace pairs buil
              "recount from the reference parse")
 RULE = ("a trace = R ranks x profiler steps {5,6,7} x one event bag per (rank, step; the bag of step 7 is a function of the other two) from an alphabet of B bags (ops "
         "with repeated names and different durations, launch+kernel pairs incl. two templated kernels whose short "
-        "names collide, events outside any step); every ordered pair of 1-rank traces incl. self-comparison x "
+        "names collide, a name occurring under two categories, events outside any step); every ordered pair of 1-rank traces incl. self-comparison x "
         "iteration selection {None,5,6,[5,6],[6,5],[5,7],[7,5,6]} x device {CPU,GPU,ALL} x short names {F,T}; multi-rank pairs x "
         "every rank selection (None, int, every non-empty sub-list). non-trivial = at least two of the five change "
         "classes are non-empty")
@@ -29,16 +29,17 @@ BAGS = [
     [],
     [("op", "aten::add", 2)],
     [("op", "aten::add", 2), ("op", "aten::add", 3), ("op", "aten::mul", 1)],
-    [("k", "void kern<float>(int)", 4)],
+    [("op", "aten::add", 2), ("anno", "aten::add", 5), ("anno", "aten::mul", 1)],   # one name under two categories
     [("k", "void kern<float>(int)", 4), ("k", "void kern<int>(int)", 2), ("op", "aten::mul", 5)],
     [("k", "Memcpy DtoD (Device -> Device)", 1), ("op", "aten::add", 7)],
+    [("k", "void kern<float>(int)", 4)],
 ]
 
 
 def bounds(tier: str) -> Dict[str, Any]:
     if tier == "quick":
         return dict(B=5, multi=[2, 3], chunk=8)
-    return dict(B=6, multi=[2, 3], chunk=8)
+    return dict(B=len(BAGS), multi=[2, 3], chunk=8)
 
 
 def trace_events(bags_by_step, rank: int) -> List[Dict[str, Any]]:
@@ -52,6 +53,8 @@ def trace_events(bags_by_step, rank: int) -> List[Dict[str, Any]]:
         for kind, name, dur in bag:
             if kind == "op":
                 evs.append(kineto.cpu_op(name, t, dur, ext=corr))
+            elif kind == "anno":
+                evs.append(kineto.annotation(name, t, dur))
             else:
                 evs.append(kineto.runtime("cudaLaunchKernel", t, 1, corr))
                 if name.startswith("Memcpy"):
